@@ -4,6 +4,8 @@
    (a seed is secret, birthday, features; built from SpecDefs only). *)
 From PS Require Import Base PackDefs ApiDefs SpecDefs SpecApi PackProofs PackTheorems ApiLemmas RefineProofs
   ApiTheorems TraceProofs FrameProofs.
+From PS Require Import GFProofs CTiePack.
+From PS.Gen Require CFuns.
 From PS.Gen Require Import Langs.
 Local Open Scope N_scope.
 
@@ -40,6 +42,16 @@ Theorem C13_isolation : forall sgn ls cs o h k, Distinct cs -> touches o = Some 
   heap_get (st_heap (TraceProofs.stp (step sgn ls cs o))) k = heap_get (st_heap cs) k.
 Proof. exact handle_frame. Qed.
 Print Assumptions C13_isolation.
+
+(* no reliance on what the allocator returned: polyseed_poly_to_data as TRANSLATED from /repo's current
+   gf.c on this run fills every field of the struct - all 32 secret bytes, padding included - with the
+   same values whatever the block held before (`sec` is arbitrary) *)
+Theorem C13_code_tie_unpack : forall c sec d, length c = 16%nat -> wf (tl c) -> hd 0 c < 2 ^ 64 ->
+  poly_to_data_full c = Some (d, true) ->
+  CFuns.polyseed_poly_to_data (map Z.of_N c) sec =
+  (Z.of_N (d_birthday d), Z.of_N (d_features d), map Z.of_N (d_secret d), Z.of_N (d_checksum d)).
+Proof. exact tie_poly_to_data. Qed.
+Print Assumptions C13_code_tie_unpack.
 
 (* non-vacuity: the initial state is related, and a history that creates, encrypts, stores and
    reloads a seed is well-formed and leaves two live, valid seeds *)
